@@ -284,6 +284,8 @@ def iters_entry(I):
                 if k1 == "return":
                     rec["result"] = dec(spec.View(I, s1), v1)
                     rec["inner_calls"] = s1.meta.get("stub_count", {}).get(tnext, 0)
+                    # the inner traversal is advanced through its own next() only (scripted here, so its state must be exactly what it was)
+                    rec["inner_untouched"] = vkey(s1.meta["temps"][slot[1]]) == vkey(val)
                     rec["expected"] = ["Some", cs[len(script) - 1]] if script[-1] == "Start" else None
                     rec["writes"] = len([e for e in s1.events if e[0] in ("write", "write-arena", "push", "clear")])
                 recs.append(rec)
